@@ -70,6 +70,10 @@ def iter_kind(full):
     if not m:
         return None, None
     t = m.group(1)
+    # a lazily mapped iterator is driven by the iterator it wraps: Map<I, F>::next calls I::next once and F once
+    mm = re.match(r"core::iter::adapters::map::Map<(.+), \{closure@[^}]*\}>$", t)
+    if mm:
+        t = mm.group(1)
     if t.startswith("core::ops::range::RangeInclusive<"):
         return "range_incl", t
     if t.startswith("core::ops::range::Range<"):
@@ -128,3 +132,12 @@ def calls_in(body, blocks):
         t = body.term(b)
         if t["k"] == "call":
             yield b, t
+
+
+def mapped_closure(fx, fid, full):
+    """closure function of a `Map<I, {closure@file:line:..}>` iterator driving a loop in function fid (matched by file and line)"""
+    m = re.search(r"map::Map<.+, \{closure@([^:}]+):(\d+):", full or "")
+    if not m:
+        return None
+    cands = [k for k in fx.fns if k.startswith(fid + "::{closure") and (fx.fns[k].get("span") or {}).get("file") == m.group(1) and (fx.fns[k].get("span") or {}).get("line") == int(m.group(2))]
+    return cands[0] if len(cands) == 1 else None
